@@ -58,6 +58,8 @@ def _deref_free(n):
         return _deref_free(n["expr"])
     if k == "mcall" and n.get("m") in ("clone", "as_ref", "borrow") and not n.get("args"):
         return _deref_free(n["recv"])
+    if k == "call" and H.last(n.get("callee") or "") == "clone" and len(n.get("args", [])) == 1:
+        return _deref_free(n["args"][0])
     return {a: _deref_free(b) for a, b in n.items()}
 
 
@@ -67,11 +69,12 @@ def canon_text(n):
 
 
 class Eval:
-    def __init__(self, F, fn, inline=True, leaf=None, keep=()):
+    def __init__(self, F, fn, inline=True, leaf=None, keep=(), node=None):
         self.F = F
         self.fn = fn
         skip = (lambda c: H.last(c) in keep) if keep else ()
-        self.body = H.inline_helpers(F, H.body_of(fn), depth=3, max_size=120, skip=skip) if (inline and F is not None) else H.body_of(fn)
+        body = node if node is not None else H.body_of(fn)
+        self.body = H.inline_helpers(F, body, depth=3, max_size=120, skip=skip) if (inline and F is not None) else body
         self.leaf = leaf or (lambda n: H.render(H.strip(n)))
         self.mentioned = {}
         for x in H.walk(self.body):
@@ -322,10 +325,15 @@ class _Lazy(dict):
         return self.ev_.atom(k)
 
 
-def table(F, fn, inline=True, limit=4096, keep=()):
+def table_expr(F, node, inline=True, limit=4096, keep=()):
+    """decision table of one expression / block (a closure body, the condition of an `if`, a `match`)"""
+    return table(F, None, inline, limit, keep, node=node)
+
+
+def table(F, fn, inline=True, limit=4096, keep=(), node=None):
     """[(assignment dict, result)] or (None, reason)"""
     try:
-        E = Eval(F, fn, inline, keep=keep)
+        E = Eval(F, fn, inline, keep=keep, node=node)
     except Exception as e:  # pragma: no cover
         return None, "cannot prepare: %r" % (e,)
     rows = []
